@@ -170,6 +170,48 @@ def gen_history(rnd, nops=40, nsrc=3, deep=False, fam=None, nq=30):
     return lines
 
 
+def gen_hostbits_history(rnd, nops=40, nsrc=3):
+    """Records whose address has bits set BEHIND the prefix length (10.0.0.1/8 next to 10.0.0.0/8): the table API takes them (the wire
+    no longer does, /repo a7ff099) and keeps them as distinct records.  Outside the domain of the Coq theorems (op_ok: zero host bits)
+    and of RFC 6811, so these histories carry no validation queries: contents, result codes and callbacks only.  Few variants per
+    prefix and short prefixes: every such record sits one trie level deeper than the last, and the depth must stay below the width."""
+    fam = rnd.choice("46")
+    w = W[fam]
+    pool = []
+    for _ in range(rnd.randint(1, 3)):
+        ln = rnd.randint(0, 12)
+        base = rand_bits(rnd, ln)
+        for _v in range(rnd.randint(2, 5)):
+            tail = "".join(rnd.choice("0001") for _ in range(w - ln))
+            if rnd.random() < 0.4:
+                tail = "0" * (w - ln - 1) + "1"
+            for _r in range(rnd.randint(1, 2)):
+                rec = (fam, base + tail, ln, rnd.choice([ln, w]), rnd.choice(ASNS), rnd.randint(0, nsrc))
+                if rec not in pool:
+                    pool.append(rec)
+    lines, present = [], []
+    for _ in range(nops):
+        x = rnd.random()
+        if x < 0.5 or not present:
+            r = rnd.choice(pool)
+            lines.append("add 0 " + fmt(r))
+            if r not in present:
+                present.append(r)
+        elif x < 0.85:
+            r = rnd.choice(present) if rnd.random() < 0.8 else rnd.choice(pool)
+            lines.append("del 0 " + fmt(r))
+            if r in present:
+                present.remove(r)
+        elif x < 0.92:
+            sid = rnd.randint(0, nsrc)
+            lines.append("srcdel 0 %d" % sid)
+            present = [r for r in present if r[5] != sid]
+        else:
+            lines.append("list 0")
+    lines.append("list 0")
+    return lines
+
+
 def gen_reload_history(rnd, nsrc=3):
     """History that ends like packets.c's atomic reload: copy_except into the callback-less table 1,
     apply a new data set for source s there, swap, notify_diff, free the old table."""
